@@ -666,6 +666,41 @@ class ExprMixin:
             return v
         return SV(v.kind, z3.substitute(v.t, *subst), v.ty, None, v.py)
 
+    def ev_SetComp(self, e, st):
+        """{f(x) for x in L}: a fresh set whose members are exactly the images; its size obeys the cardinality law SETCARD
+        (|image| <= len L, with equality iff no two positions of L carry the same image) — a theorem about finite lists and
+        sets (proved separately in Lean, lemmas/SetCard.lean), assumed here as part of the container theory"""
+        target, it, ifs = self._comp_parts(e)
+        if ifs:
+            raise Unsupported('set comprehension with a filter')
+        l, elem = self.bound_iter(self.ev(it, st), st)
+        h = st.h
+        u = self.uid()
+        xv, x2 = z3.Const('x!sc%d' % u, Val), z3.Const('x2!sc%d' % u, Val)
+        x_sv = from_val(xv, elem)
+        typed = (lambda v: tag_pred(v, elem)) if (elem is not None and not elem.opt and elem.kind != 'val') else (lambda v: z3.BoolVal(True))
+        inl = lambda v: h.bag(l, v) > 0
+        vals, facts = self.eval_with_binding(target, x_sv, [e.elt], st, bound=xv, guard=z3.And(typed(xv), inl(xv)))
+        if facts:
+            st.assume(z3.ForAll([xv], z3.Implies(z3.And(typed(xv), inl(xv)), z3.And(*facts)), patterns=[h.bag(l, xv)]))
+        out = vals[0]
+        fx = to_val(out)
+        f_of = lambda v: z3.substitute(fx, (xv, v))
+        a = st.alloc_addr(CLS_SET)
+        HAS = self.fresh(SetVB, 'schas')
+        n = self.fresh(z3.IntSort(), 'scsize')
+        yv = z3.Const('y!sc%d' % u, Val)
+        wit = z3.Function('wit!sc%d' % u, Val, Val)
+        st.assume(z3.ForAll([xv], z3.Implies(z3.And(typed(xv), inl(xv)), z3.Select(HAS, fx)), patterns=[h.bag(l, xv)]))
+        st.assume(z3.ForAll([yv], z3.Implies(z3.Select(HAS, yv), z3.And(typed(wit(yv)), inl(wit(yv)), f_of(wit(yv)) == yv)), patterns=[z3.Select(HAS, yv)]))
+        inj = z3.ForAll([xv, x2], z3.Implies(z3.And(typed(xv), inl(xv), typed(x2), inl(x2), fx == f_of(x2)), xv == x2),
+                        patterns=[z3.MultiPattern(h.bag(l, xv), h.bag(l, x2))])
+        nodup = z3.ForAll([xv], h.bag(l, xv) <= 1, patterns=[h.bag(l, xv)])
+        st.assume(z3.And(n >= 0, n <= h.len(l), (n == h.len(l)) == z3.And(inj, nodup)))
+        st.set_arr('D_has', z3.Store(st.h.arr['D_has'], a, HAS))
+        st.set_arr('D_size', z3.Store(st.h.arr['D_size'], a, n))
+        return sv_ref(a, T('set', cls='set', elem=self._elem_of(out)))
+
     def ev_ListComp(self, e, st):
         target, it, ifs = self._comp_parts(e)
         l, elem = self.bound_iter(self.ev(it, st), st)
